@@ -246,3 +246,75 @@ func literalAssigns(api *probe.API, limit int) (out []spec.Assign, nLits int) {
 	}
 	return out, nLits
 }
+
+// harvestStrings collects the string literals (length >= 2, at most 400 bytes) of the non-test Go files under dir.
+func harvestStrings(dir string) []string {
+	set := map[string]bool{}
+	filepath.Walk(dir, func(p string, info os.FileInfo, err error) error {
+		if err != nil {
+			return nil
+		}
+		if info.IsDir() {
+			if n := info.Name(); n == ".git" || n == "testdata" || n == "res" || n == "differential" {
+				return filepath.SkipDir
+			}
+			return nil
+		}
+		if !strings.HasSuffix(p, ".go") || strings.HasSuffix(p, "_test.go") {
+			return nil
+		}
+		f, err := parser.ParseFile(token.NewFileSet(), p, nil, 0)
+		if err != nil {
+			return nil
+		}
+		ast.Inspect(f, func(n ast.Node) bool {
+			if bl, ok := n.(*ast.BasicLit); ok && bl.Kind == token.STRING {
+				if x, err := strconv.Unquote(bl.Value); err == nil && len(x) >= 2 && len(x) <= 400 {
+					set[x] = true
+				}
+			}
+			return true
+		})
+		return nil
+	})
+	out := make([]string, 0, len(set))
+	for x := range set {
+		out = append(out, x)
+	}
+	sort.Strings(out)
+	return out
+}
+
+// literalStrings lays every string literal of the tree under test around valid vectors of every version: alone,
+// behind each header, behind / in front of a base-only and a fully populated vector (with and without a '/').
+// A suffix, prefix or infix the code compares its input with is spelled out in its source.
+func literalStrings() (out []string, nLits int) {
+	root := os.Getenv("VERIF_REPO")
+	if root == "" {
+		return nil, 0
+	}
+	lits := harvestStrings(root)
+	nLits = len(lits)
+	r := gen.New(1, "literal-strings")
+	for _, v := range spec.Versions {
+		base := v.Canonical(v.ZeroAssign())
+		full := v.Canonical(gen.Background(r, v, 1))
+		_, el := gen.SplitElems(v, base)
+		body := strings.Join(el, "/")
+		for _, L := range lits {
+			out = append(out, base+L, base+"/"+L, full+L, full+"/"+L, v.Header+L, v.Header+L+"/"+body, L+base, L+"/"+base)
+			if strings.HasPrefix(L, "/") {
+				// a tail that starts with '/': also behind every other version's header over this body
+				for _, o := range spec.Versions {
+					if o.Header != "" && o.Header != v.Header {
+						out = append(out, o.Header+body+L)
+					}
+				}
+			}
+		}
+	}
+	for _, L := range lits {
+		out = append(out, L)
+	}
+	return out, nLits
+}
